@@ -319,7 +319,7 @@ func runAliasCluster(sc *aliasScenario) (res aliasResult) {
 						err = f.Result()
 					}
 				}
-				p.Close()
+				_ = p.Discard() // returns the command slices to the shared pool (and closes the pipeline)
 				ob = []interface{}{"code", cliCode(err)}
 			case "get":
 				g, err := vc.get(op[1].(string), hexKey(op[2]))
